@@ -100,6 +100,21 @@ theorem data_change_needs_commit_decision (stores : List Store) (tt mc lt : Nat)
   have hd := hinv.commitMsg tx sh' (List.mem_of_getElem? hm)
   exact hno ⟨i, tx, sh', he, hm, hd, hinv.excl tx hd⟩
 
+/-- Run-level exactness: in every reachable state each shard holds exactly its initial data plus the
+    logged commit applications, in application order — and every logged application belongs to a
+    transaction whose one decision is commit.  Aborted and timed-out transactions (and every
+    prepare / abort / duplicate / late message) contribute nothing to any shard. -/
+theorem shard_data_is_replay_of_committed (stores : List Store) (tt mc lt : Nat) {s : Sys}
+    (hr : Reach (Sys.init stores tt mc lt) s) :
+    (∀ sh k, sget (s.storeOf sh) k = sget (replay (stores[sh]?.getD []) sh s.appliedOps) k) ∧
+    (∀ sh tx ops, (sh, tx, ops) ∈ s.appliedOps → (tx, true) ∈ s.decided ∧ (tx, false) ∉ s.decided) := by
+  have hinv := (InvA.init stores tt mc lt).reach hr
+  obtain ⟨hR, hA⟩ := RInv.reach hr
+  refine ⟨hR, ?_⟩
+  intro sh tx ops hx
+  have hd := hinv.applied sh tx (hA sh tx ops hx)
+  exact ⟨hd, hinv.excl tx hd⟩
+
 /-! ### non-vacuity: a concrete 2-shard run committing tx 0 and aborting (timing out) tx 1 -/
 
 def demoInit : Sys := Sys.init [[(1, 5)], []] 2 100 1000
@@ -117,6 +132,7 @@ example : (demoInit.run demoRun).discarded = [(1, 1)] := by decide
 example : sget ((demoInit.run demoRun).storeOf 0) 1 = some 7 ∧ sget ((demoInit.run demoRun).storeOf 1) 3 = some 9 := by
   decide
 
+example : (demoInit.run demoRun).appliedOps = [(0, 0, [.put 1 7, .del 2]), (1, 0, [.put 3 9])] := by decide
 -- the stretch `tx 1 prepares, times out, is aborted, its late vote arrives` is quiet, and non-trivially so
 example : ((demoInit.run (demoRun.take 9)).quiet (demoRun.drop 9)) = true := by decide
 -- the hypotheses of `abort_restores_shard` hold for the delivery of tx 1's abort to the shard that prepared it
